@@ -82,7 +82,7 @@ CHECKS["C17"] = dict(
         "result, that the classification by polynomial length is a partition stored class by class, that the pre-evaluated representation "
         "uses constraint-evaluation-domain units for both values and step offset, that every evaluation column is folded with its divisor, "
         "that the full-fragment evaluator includes the auxiliary terms, and (shared with C02) that coefficients are partitioned and the "
-        "verifier's evaluation depends on every family. Numerical equality with the definition is not decided. (COLS, shared with C01) the number of composition columns is max(1, ceil((D+1)/trace_length)); (DERIVED) no cached column count survives a setter of the exemption count. (K) the classification of boundary constraints is decided per polynomial length (which push sites stay reachable for lengths 1, 2, 3, S-1, S, S+1, 4S), independent of the order and spelling of the tests; (DEDUP) dedup() in the constraint-evaluation code only after a sort of the same vector.",
+        "verifier's evaluation depends on every family. Numerical equality with the definition is not decided. (COLS, shared with C01) the number of composition columns is max(1, ceil((D+1)/trace_length)); (DERIVED) no cached column count survives a setter of the exemption count. (K) the classification of boundary constraints is decided per polynomial length (which push sites stay reachable for lengths 1, 2, 3, S-1, S, S+1, 4S), independent of the order and spelling of the tests; (DEDUP) dedup() in the constraint-evaluation code only after a sort of the same vector; (PERIODIC) the verifier's per-column evaluation of periodic polynomials carries no scalar state from one column to the next.",
    design_ref="DESIGN.md §3 C17")
 CHECKS["C07"] = dict(
    technique="static analysis: exact integer arithmetic on constants extracted from the compiled crates (Lucas primality proof, orders), MUST-GUARDS for modulus decisions with comparison width, MIR lint for normalisation and canonical serialisation, interval abstract interpretation with case splits for the representation range, abstract interpretation in the domain of exact integer-linear forms with quotient/remainder atoms (E5b) for the carry/borrow logic",
